@@ -250,14 +250,14 @@ fn new_blockstore() -> (SharedBlockstore, Arc<RwLock<BlockstoreImpl>>, mpsc::Rec
     (shared, concrete, rx)
 }
 
-async fn requester_run(ctx: &mut Ctx, rng: &mut SRng) {
-    let n = *[3usize, 4, 4, 4, 5, 6, 8].choose(rng).unwrap();
+async fn requester_run(ctx: &mut Ctx, rng: &mut SRng, directed: Option<&'static str>) {
+    let n = if directed.is_some() { 4 } else { *[3usize, 4, 4, 4, 5, 6, 8].choose(rng).unwrap() };
     let fam = *["equal", "smallint", "heavy"].choose(rng).unwrap();
     let stakes = gen_stakes(rng, fam, n);
     let ep = make_epoch(rng, &stakes, "c14");
     let slot = rng.random_range(1..200u64);
     let leader = ((slot / 4) % n as u64) as usize;
-    let nslices = *[1usize, 1, 2, 3, 5].choose(rng).unwrap();
+    let nslices = if directed.is_some() { rng.random_range(2..=4) } else { *[1usize, 1, 2, 3, 5].choose(rng).unwrap() };
     let sw = rng.random_bool(0.2);
     let specs: Vec<SliceSpec> = good_specs(rng, slot, nslices, sw);
     let truth = Arc::new(Truth::new(build_block(&ep.sks[leader], slot, &specs), &ep.sks[leader]));
@@ -267,9 +267,12 @@ async fn requester_run(ctx: &mut Ctx, rng: &mut SRng) {
     let others: Vec<usize> = (0..n).filter(|v| *v != requester).collect();
     let honest_one = *others.choose(rng).unwrap();
     // one hostile mode per run, so that a failure is attributable to it
-    let run_mode: &'static str = HOSTILE_MODES[rng.random_range(0..HOSTILE_MODES.len())];
+    let run_mode: &'static str = directed.unwrap_or(HOSTILE_MODES[rng.random_range(0..HOSTILE_MODES.len())]);
     for &v in &others {
-        let p = if v == honest_one {
+        // directed runs: the adversarially strongest order, every hostile answer overtakes the (slow) honest one
+        let p = if directed.is_some() {
+            if v == honest_one { Persona::HonestSlow } else { Persona::Hostile }
+        } else if v == honest_one {
             *[Persona::Honest, Persona::Honest, Persona::HonestSlow, Persona::HonestDuplicating].choose(rng).unwrap()
         } else {
             *[Persona::Honest, Persona::NackOnly, Persona::Silent, Persona::Hostile, Persona::Hostile, Persona::Hostile, Persona::HonestSlow].choose(rng).unwrap()
@@ -277,13 +280,13 @@ async fn requester_run(ctx: &mut Ctx, rng: &mut SRng) {
         let modes: Vec<&'static str> = if p == Persona::Hostile { vec![run_mode] } else { vec![] };
         personas.insert(v, (p, modes));
     }
-    let cfg = json!({"n": n, "stakes": stakes, "slot": slot, "leader": leader, "slices": nslices, "requester": requester,
+    let cfg = json!({"directed": directed, "n": n, "stakes": stakes, "slot": slot, "leader": leader, "slices": nslices, "requester": requester,
                      "personas": personas.iter().map(|(v, (p, m))| format!("{v}:{p:?}{}", if m.is_empty() { String::new() } else { format!("{m:?}") })).collect::<Vec<_>>()});
     let net = NetHandle::new();
     // slow / duplicating honest personas are realised by the delivery policy
     let slow: Vec<usize> = personas.iter().filter(|(_, (p, _))| *p == Persona::HonestSlow).map(|(v, _)| *v).collect();
     let dup: Vec<usize> = personas.iter().filter(|(_, (p, _))| *p == Persona::HonestDuplicating).map(|(v, _)| *v).collect();
-    let slow_ms: u64 = *[30u64, 200, 600, 1400].choose(rng).unwrap();
+    let slow_ms: u64 = if directed.is_some() { 200 } else { *[30u64, 200, 600, 1400].choose(rng).unwrap() };
     net.set_policy(Box::new(move |d| {
         if d.from.0 == Ep::RepairResp && slow.contains(&d.from.1) {
             vec![Duration::from_millis(slow_ms)]
@@ -377,7 +380,14 @@ async fn requester_run(ctx: &mut Ctx, rng: &mut SRng) {
                 let (p, modes) = &personas[&v];
                 match p {
                     Persona::NackOnly => {
-                        net.send_raw((Ep::RepairResp, v), (Ep::RepairReq, requester), ser(&RepairResponse::Nack(ty.clone())));
+                        // bounded like the hostile personas: every NACK makes the requester re-send at once to
+                        // three peers, so two NACKing peers double the traffic per round trip (with the zero
+                        // latency of this network that is an unbounded storm in zero virtual time)
+                        let left = hostile_budget.get_mut(&v).unwrap();
+                        if *left > 0 {
+                            *left -= 1;
+                            net.send_raw((Ep::RepairResp, v), (Ep::RepairReq, requester), ser(&RepairResponse::Nack(ty.clone())));
+                        }
                     }
                     Persona::Silent => {}
                     Persona::Hostile => {
@@ -400,7 +410,7 @@ async fn requester_run(ctx: &mut Ctx, rng: &mut SRng) {
                             *hostile_sent.entry(mode.to_string()).or_insert(0) += 1;
                             phases.insert(format!("{mode}@{phase}"));
                             // hostile answers may overtake honest ones or arrive late
-                            let delay = *[0u64, 0, 1, 50].choose(rng).unwrap();
+                            let delay = if directed.is_some() { 0 } else { *[0u64, 0, 1, 50].choose(rng).unwrap() };
                             if delay == 0 {
                                 net.send_raw((Ep::RepairResp, v), (Ep::RepairReq, requester), o);
                             } else {
@@ -743,8 +753,10 @@ pub fn run(ctx: &mut Ctx) -> Result<(), String> {
     let rt = tokio::runtime::Builder::new_current_thread().enable_all().start_paused(true).build().map_err(|e| e.to_string())?;
     let mut rng = ctx.rng("requester");
     let runs = ctx.iters(160, 8000);
-    for _ in 0..runs {
-        rt.block_on(tokio::task::unconstrained(requester_run(ctx, &mut rng)));
+    for i in 0..runs {
+        // every other run is a directed one: one hostile mode, hostile answers always first
+        let directed = if i % 2 == 0 { Some(HOSTILE_MODES[((i / 2) as usize + ctx.shard * 5) % HOSTILE_MODES.len()]) } else { None };
+        rt.block_on(tokio::task::unconstrained(requester_run(ctx, &mut rng, directed)));
         if ctx.violations.len() > 30 {
             break;
         }
